@@ -37,6 +37,7 @@ DEV = {
     "virt": dict(glob="ryd_glob", loc="ryd_loc", other="ram_loc", mw=None, reusable=False, eom=True, dmm=True, slm=True),
     "mock": dict(glob="rydberg_global", loc="rydberg_local", other="raman_local", mw="mw_global", reusable=True, eom=False, dmm=True, slm=True),
     "virt_reuse": dict(glob="ryd_glob", loc="ryd_loc", other="ram_loc", mw=None, reusable=True, eom=True, dmm=True, slm=True),
+    "mock_noreuse": dict(glob="rydberg_global", loc="rydberg_local", other="raman_local", mw="mw_global", reusable=False, eom=False, dmm=True, slm=True),
     "digital": dict(glob="rydberg_global", loc="rydberg_local", other="raman_local", mw=None, reusable=False, eom=False, dmm=True, slm=True),
 }
 
@@ -44,7 +45,7 @@ OPS = ["D_g", "D_g2", "D_gname", "D_l", "D_mw", "DMAP", "SLM", "ADD_g", "ADD_l",
        "EOM_on", "EOM_p", "EOM_off", "MEAS", "MEAS_xy", "VAR", "INSPECT", "ALIGN", "SHIFT", "ADD_g2", "DMAP2", "D_l2", "VAR_EOM",
        "EOM_on2", "EOM_off2", "D_l_init", "INSPECT_EST"]
 # further calls, placed by prefixes / as the first free call only (they are not part of the alphabet of the free choices)
-EXTRA = ["EOM_mod", "EOM_mod_bad", "ADD_dmm"]
+EXTRA = ["EOM_mod", "EOM_mod_bad", "ADD_dmm", "D_mw2"]
 ALL = OPS + EXTRA
 
 
@@ -112,6 +113,8 @@ class Model:
             return declare("l", d["loc"], "loc")
         if op == "D_mw":
             return declare("mw", d["mw"], "mw")
+        if op == "D_mw2":  # the microwave channel under a second name
+            return declare("mw2", d["mw"], "mw")
         if op in ("DMAP", "DMAP2"):
             if self.measured:
                 return False
@@ -244,6 +247,8 @@ class Model:
             self.names["l"]["target"] = True
         elif op == "D_mw":
             declare("mw", d["mw"], "mw")
+        elif op == "D_mw2":
+            declare("mw2", d["mw"], "mw")
         elif op in ("DMAP", "DMAP2"):
             self.in_ising = True
             self.used.add("dmm_0")
@@ -295,6 +300,8 @@ def do_op(seq, op, dev, st):
         seq.declare_channel("l", d["loc"], initial_target=qs[0])
     elif op == "D_mw":
         seq.declare_channel("mw", d["mw"] or "mw_global")
+    elif op == "D_mw2":
+        seq.declare_channel("mw2", d["mw"] or "mw_global")
     elif op in ("DMAP", "DMAP2"):
         dm = seq.register.define_detuning_map({qs[0]: 1.0, qs[1]: 0.5})
         seq.config_detuning_map(dm, "dmm_0")
@@ -450,6 +457,10 @@ def kernels(tier):
                         ("virt", ["D_g", "EOM_on", "VAR_EOM", "EOM_mod"])):
         for first in range(len(ALL)):
             ks.append(("history", dict(device=dev, k=1 if quick else 2, first=first, prefix=prefix)))
+    # XY mode on a device WITHOUT reusable channels ("each channel can be declared once" holds for the microwave channel too)
+    for prefix in ([], ["D_mw"], ["D_g"], ["D_mw", "ADD_mw"]):
+        for first in range(len(ALL)):
+            ks.append(("history", dict(device="mock_noreuse", k=2 if quick else 3, first=first, prefix=prefix)))
     return ks
 
 
